@@ -260,6 +260,16 @@ func runC18(c *Ctx) {
 					w = withSlack(e, len(e)-len(ri.Sig)-len(encodeMapping(ri.Opts)), junk)
 				}
 			}
+			if p.Name == "ReadLeaseSet" && k%3 == 2 {
+				// leases with a null end date (legal on the wire) and with equal end dates among dated ones
+				ls := genLeaseSet(r)
+				for len(ls.Leases) < 4 {
+					ls.Leases = append(ls.Leases, genLease(r))
+				}
+				copy(ls.Leases[1][36:], make([]byte, 8))
+				copy(ls.Leases[3][36:], ls.Leases[2][36:])
+				w = ls.Encode()
+			}
 			var extra [][]byte
 			if p.Extra != nil {
 				extra = p.Extra(r)
